@@ -4,6 +4,11 @@ import numpy as np
 from .. import ev1
 from . import c03, c01
 
+def ev1_nested(c, ca):
+    from ..ev1 import nested_of
+    return nested_of(c, ca)
+
+
 PROP = "C05"
 RULE = ("cases: histories of 1..4 rows, T in 1..6, every split T1+T2-1 <= 8 of one evolution into two continued calls, "
         "all memoize modes, dtypes, time-free rules (pure hash / nks / totalistic in every mode; the stateful counter "
@@ -195,7 +200,7 @@ def oracle(c):
     ca = ev1.make_ca(c)
     snap = (ca.tobytes(), ca.dtype, ca.shape)
     memo = ev1.memo_value(c["memo"])
-    rule = Rule(c["rule"], c.get("scale", 1), clobber=bool(c.get("clobber")), mixret=c.get("mixret") or False)
+    rule = Rule(c["rule"], c.get("scale", 1), clobber=bool(c.get("clobber")), mixret=c.get("mixret") or False, nested=ev1_nested(c, ev1.make_ca(c)))
     first = cpl.evolve(ca, timesteps=T1, apply_rule=rule, r=c["r"], memoize=memo)
     if (ca.tobytes(), ca.dtype, ca.shape) != snap:
         return "the caller's array was modified by evolve"
@@ -210,13 +215,13 @@ def oracle(c):
     second = cpl.evolve(first, timesteps=T2, apply_rule=rule, r=c["r"], memoize=memo)
     if first.tobytes() != snap1:
         return "the caller's array was modified by the continued evolve"
-    once = cpl.evolve(ev1.make_ca(c), timesteps=T1 + T2 - 1, apply_rule=Rule(c["rule"], c.get("scale", 1), clobber=bool(c.get("clobber")), mixret=c.get("mixret") or False), r=c["r"], memoize=memo)
+    once = cpl.evolve(ev1.make_ca(c), timesteps=T1 + T2 - 1, apply_rule=Rule(c["rule"], c.get("scale", 1), clobber=bool(c.get("clobber")), mixret=c.get("mixret") or False, nested=ev1_nested(c, ev1.make_ca(c))), r=c["r"], memoize=memo)
     if second.shape != once.shape or second.dtype != once.dtype or second.tobytes() != once.tobytes():
         return "evolving %d then %d steps differs from %d steps at once" % (T1, T2, T1 + T2 - 1)
     # only the last row of the history matters
     if H > 1:
         c2 = dict(c, hist=[c["hist"][-1]])
-        alone = cpl.evolve(ev1.make_ca(c2), timesteps=T1, apply_rule=Rule(c["rule"], c.get("scale", 1), clobber=bool(c.get("clobber")), mixret=c.get("mixret") or False), r=c["r"], memoize=memo)
+        alone = cpl.evolve(ev1.make_ca(c2), timesteps=T1, apply_rule=Rule(c["rule"], c.get("scale", 1), clobber=bool(c.get("clobber")), mixret=c.get("mixret") or False, nested=ev1_nested(c, ev1.make_ca(c))), r=c["r"], memoize=memo)
         if alone[1:].tobytes() != first[H:].tobytes():
             return "new rows depend on more than the last row of the history"
     return None
